@@ -495,3 +495,13 @@ func rhUpdateRun(kind int, fams []int, maxItems []int, prepop int, mode int) {
 		targets = append(targets, t)
 	}
 }
+
+// symPluginsAnyNames returns n non-empty plugin names that may coincide (NRI does not enforce unique names).
+func symPluginsAnyNames(n int) []string {
+	ps := make([]string, n)
+	for i := range ps {
+		ps[i] = nondetString()
+		assume(ps[i] != "")
+	}
+	return ps
+}
